@@ -180,6 +180,7 @@ func TestProp(t *testing.T) {
 		runCrossUpstream(rep, env)
 		runPrimedPairs(rep, env)
 		runDueCheckNotPassed(rep, env)
+		runAuthOnlyDirect(rep, env)
 	}
 	rep.Extra("wall_workload_s", time.Since(start).Seconds())
 	rep.Floor("backend_hits_authorised", 20)
@@ -833,4 +834,88 @@ func runDueCheckNotPassed(rep *vh.Report, env vh.Env) {
 	for _, st := range []string{"refresh-then-profile", "refresh", "validate", "validate-then-profile"} {
 		rep.Floor("due_check_not_passed_refused_at_"+st, 5)
 	}
+}
+
+// runAuthOnlyDirect: /oauth2/auth ("auth_request" endpoint) on an upstream that has skip_auth_preflight
+// and skip-auth patterns: it answers 202 only in the session case, whatever the method, the CORS
+// preflight headers or the original-URI headers a fronting web server adds. (Added after seeded change
+// C01i - 202 for OPTIONS when the upstream skips auth on preflights - was missed: the option can only
+// be switched on through the direct assembly, which the decision table does not use.)
+func runAuthOnlyDirect(rep *vh.Report, env vh.Env) {
+	host := "ao.sso.test"
+	ps, err := sut.NewDirectProxy(sut.DirectOpts{Host: host, SkipAuthPreflight: true, SkipAuthRegex: []string{"^/public/", "^/oauth2/auth$"}, AllowedEmailDomains: []string{"corp.test"}})
+	if err != nil {
+		rep.Inconclusive("direct proxy (auth-only) did not start: " + err.Error())
+		return
+	}
+	defer ps.Close()
+	n := env.Pick(400, 6000)
+	vh.ForEach(n, 0, -1, func(i int) {
+		r := vh.CaseRNG(env.Seed, "c01-authonly", i)
+		uid := sut.NewID()
+		method := []string{"GET", "OPTIONS", "OPTIONS", "HEAD", "POST", "PUT", "DELETE"}[r.Intn(7)]
+		rq := sut.Req{Method: method, Host: host, Target: "/oauth2/auth"}
+		if r.Intn(3) == 0 {
+			rq.Target += "?rd=" + randWord(r, 5)
+		}
+		if method == "OPTIONS" || r.Intn(4) == 0 {
+			rq.Headers = append(rq.Headers, [2]string{"Origin", "https://x.test"}, [2]string{"Access-Control-Request-Method", []string{"POST", "GET", "DELETE"}[r.Intn(3)]})
+			if r.Intn(2) == 0 {
+				rq.Headers = append(rq.Headers, [2]string{"Access-Control-Request-Headers", "authorization, x-requested-with"})
+			}
+		}
+		if r.Intn(2) == 0 {
+			orig := []string{"/public/" + uid, "/oauth2/auth", "/x/" + uid, "/public/../x"}[r.Intn(4)]
+			name := []string{"X-Original-URI", "X-Original-Url", "X-Forwarded-Uri", "X-Auth-Request-Redirect"}[r.Intn(4)]
+			rq.Headers = append(rq.Headers, [2]string{name, orig}, [2]string{"X-Original-Method", []string{"OPTIONS", "GET"}[r.Intn(2)]})
+		}
+		class := []string{"absent", "random", "valid", "valid", "expired-lifetime", "other-host", "wrong-domain"}[r.Intn(7)]
+		email := "user" + uid + "@corp.test"
+		switch class {
+		case "random":
+			rq.Cookies = []string{ps.CookieName + "=" + randWord(r, 60)}
+		case "valid":
+			rq.Cookies = []string{ps.CookieName + "=" + ps.Seal(ps.Session(host, email, nil))}
+		case "expired-lifetime":
+			s := ps.Session(host, email, nil)
+			s.LifetimeDeadline = time.Now().Add(-time.Duration(60+r.Intn(3600)) * time.Second)
+			rq.Cookies = []string{ps.CookieName + "=" + ps.Seal(s)}
+		case "other-host":
+			rq.Cookies = []string{ps.CookieName + "=" + ps.Seal(ps.Session("elsewhere.sso.test", email, nil))}
+		case "wrong-domain":
+			rq.Cookies = []string{ps.CookieName + "=" + ps.Seal(ps.Session(host, "user"+uid+"@evil.test", nil))}
+		}
+		rs := ps.Client.Do(rq)
+		rep.Eval()
+		if rs.Err != nil {
+			rep.Count("client_errors", 1)
+			return
+		}
+		rep.Distinct("authonly|" + method + "|" + class)
+		kc := map[string]interface{}{"index": i, "method": method, "target": rq.Target, "headers": rq.Headers, "cookie_class": class, "status": rs.Status}
+		if len(ps.Hits(rs.ID)) > 0 || strings.Contains(string(rs.Body), "UPSTREAM-CONTENT-") {
+			rep.Violate("c01-authonly", i, "auth-only: request-forwarded-to-upstream", "a request for /oauth2/auth reached the upstream", kc)
+			return
+		}
+		if class == "valid" {
+			if rs.Status == 202 {
+				rep.Count("auth_only_direct_202_with_session", 1)
+			} else {
+				rep.Count(fmt.Sprintf("auth_only_direct_valid_session_status_%d", rs.Status), 1)
+			}
+			return
+		}
+		if rs.Status == 202 {
+			rep.Violate("c01-authonly", i, "auth-only: 202-without-authorised-session cookie="+class+" method="+method+" upstream=skip-auth-preflight",
+				fmt.Sprintf("%s /oauth2/auth answered 202 with cookie class %s", method, class), kc)
+			return
+		}
+		rep.Count("auth_only_direct_refused_without_session", 1)
+		if method == "OPTIONS" {
+			rep.Count("auth_only_direct_options_refused_without_session", 1)
+		}
+	})
+	rep.Floor("auth_only_direct_202_with_session", 50)
+	rep.Floor("auth_only_direct_refused_without_session", 100)
+	rep.Floor("auth_only_direct_options_refused_without_session", 30)
 }
